@@ -76,6 +76,13 @@ func genC08(r *rt.Rand, tier string, idx int) *world.Scenario {
 			sc.Clients = append(sc.Clients, mk(c, span/2+5))
 		}
 	}
+	if idx%5 == 3 {
+		// writes of the compaction record are lost with an unknown outcome (several in a row): a request
+		// that is answered with success must have stored its floor
+		sc.Class += "+lost-record-writes"
+		sc.Rates.CommitUncL = 0.3 + 0.5*r.Float64()
+		sc.Rates.OnlyClass = "compact"
+	}
 	if idx%5 == 4 {
 		// the floor check itself may hit a storage fault: it must fail closed
 		sc.Class += "+read-errors"
